@@ -239,6 +239,9 @@ func c19GenFilter(t *rapid.T, s datagen.Schema, recs []model.Rec, label string) 
 				lo := rapid.IntRange(0, len(line)-1).Draw(t, label+"-lo")
 				hi := rapid.IntRange(lo, min(len(line), lo+6)).Draw(t, label+"-hi")
 				needle = line[lo:hi]
+				if rapid.IntRange(0, 3).Draw(t, label+"-whole") == 0 {
+					needle = line // the whole line: "^line$" matches, "line" inside a longer one must not
+				}
 			}
 		}
 	}
@@ -246,7 +249,7 @@ func c19GenFilter(t *rapid.T, s datagen.Schema, recs []model.Rec, label string) 
 		if rapid.Bool().Draw(t, label+"-re-pool") {
 			needle = rapid.SampledFrom([]string{"err", "^e", "[0-9]+", "o{2}", "(?i)get", ".", "^$", "a|b", "\\d\\.\\d", "[^a-z]"}).Draw(t, label+"-re")
 		} else {
-			needle = quoteMetaBytes(needle)
+			needle = datagen.AnchorVariant(t, quoteMetaBytes(needle), label)
 		}
 	}
 	st.Value = gen.BS(needle)
